@@ -22,8 +22,11 @@ macro_rules! with_check {
             "C07" => $f::<props::core::C07>($($arg),*),
             "C08" => $f::<props::core::C08>($($arg),*),
             "C09" => $f::<props::c09::C09>($($arg),*),
+            "C16" => $f::<props::c16::C16>($($arg),*),
             "C18" => $f::<props::core::C18>($($arg),*),
+            "C19" => $f::<props::c16::C19>($($arg),*),
             "C10" => $f::<props::c10::C10>($($arg),*),
+            "C12" => $f::<props::c12::C12>($($arg),*),
             "C14" => $f::<props::c14::C14>($($arg),*),
             other => {
                 eprintln!("unknown check {other}");
